@@ -53,7 +53,8 @@ structure H2Conn where
   nRefused : Nat := 0
   nDiscarded : Nat := 0
   hcRecent : Bool := false       -- half_closed_ts within the last 2 s
-  dead : Bool := false           -- connection is being torn down (error GOAWAY sent)
+  dead : Bool := false           -- connection finished: GOAWAY sent and no stream left
+  stop : Bool := false           -- transient: h2_parse_frames() returned 0 after this frame
 deriving Repr, DecidableEq
 
 /-- what a HEADERS (+CONTINUATION) block decodes to -/
@@ -149,10 +150,15 @@ def recvData (c : H2Conn) (sid len : Nat) (pad : Option Nat) (endStream : Bool) 
     match findStrm c sid with
     | none =>
       if c.hcRecent then connUpd c
-      else if c.goaway = 0 ∧ alen ≠ 0 then sendGoaway c 0 else (c, [])
+      else if alen = 0 then (c, [])
+      else
+        -- not a data sink: GOAWAY(NO_ERROR) once, and stop parsing this round
+        let (c', o) := if c.goaway = 0 then sendGoaway c 0 else (c, [])
+        ({ c' with stop := true }, o)
     | some s =>
       if s.st = .closed ∨ s.st = .hcRemote then
-        let (c', o) := connUpd c
+        -- stream error: the stream is closed and will be retired without further frames
+        let (c', o) := connUpd (rstState c sid)
         (c', [.rst sid E.streamClosed] ++ o)
       else
         let (c, o1) := connUpd c
@@ -230,7 +236,9 @@ def recvPriority (c : H2Conn) (sid len dep : Nat) : Res :=
 def recvGoaway (c : H2Conn) (sid len code : Nat) : Res :=
   if len < 8 then sendGoaway c E.frameSize else
   if sid ≠ 0 then sendGoaway c E.protocol else
-  sendGoaway c (if code = 0 then 0 else E.protocol)
+  let (c', o) := sendGoaway c (if code = 0 then 0 else E.protocol)
+  -- with no stream left the connection ends: parsing stops here
+  ({ c' with stop := c'.streams.isEmpty }, o)
 
 def recvPing (c : H2Conn) (ack : Bool) (sid len : Nat) : Res :=
   if len ≠ 8 then sendGoaway c E.frameSize else
@@ -296,7 +304,7 @@ def recvHeaders (c : H2Conn) (sid : Nat) (kind : HdrKind) (endStream : Bool) (de
 
 /-- one complete frame of h2_parse_frames(); nothing is parsed after an error GOAWAY -/
 def recvFrame (c : H2Conn) (f : FrameIn) : Res :=
-  if c.goaway > 0 then (c, []) else
+  if c.goaway > 0 ∨ c.dead then (c, []) else
   match f with
   | .oversize => sendGoaway c E.frameSize
   | .settings ack sid params junk => recvSettings c ack sid params junk
@@ -362,10 +370,13 @@ def passAux : Int → Nat → List Strm → PassOut
 /-- h2_process_streams(): streams are served only while no error GOAWAY is out; after one,
     remaining streams are retired silently -/
 def processPass (c : H2Conn) (budget : Nat) : Res :=
-  if c.goaway > 0 then ({ c with streams := [], dead := true }, [])
+  if c.dead then (c, [])
+  else if c.goaway > 0 then ({ c with streams := [], dead := true }, [])
   else
     let r := passAux c.swin budget c.streams
-    ({ c with streams := r.streams, swin := r.cswin, hcRecent := c.hcRecent || r.hc }, r.outs)
+    let c' := { c with streams := r.streams, swin := r.cswin, hcRecent := c.hcRecent || r.hc }
+    -- h2_process_streams(): once a GOAWAY is out and no stream is left the connection ends
+    ({ c' with dead := c'.goaway ≠ 0 && c'.streams.isEmpty }, r.outs)
 
 def processQuiesce : Nat → H2Conn → Res
   | 0, c => (c, [])
@@ -389,8 +400,10 @@ def recvBatch : H2Conn → List FrameIn → Res
       | _ => false
     let (c0, o0) := if needsSlot then processPass c 262144 else (c, [])
     let (c1, o1) := recvFrame c0 f
-    let (c2, o2) := recvBatch c1 rest
-    (c2, o0 ++ o1 ++ o2)
+    -- h2_parse_frames() returned 0: one processing pass happens before parsing resumes
+    let (c1', o1') := if c1.stop then processPass { c1 with stop := false } 262144 else (c1, [])
+    let (c2, o2) := recvBatch c1' rest
+    (c2, o0 ++ o1 ++ o1' ++ o2)
 
 def h2Step (c : H2Conn) (batch : List FrameIn) : Res :=
   let (c1, o1) := recvBatch c batch
